@@ -890,25 +890,85 @@ def run_layout_pair(res, ast, rule):
 
 
 def run_bc_simul(res, ast):
-    res.rule("BC-SIMUL", "bc::CodeGen::emit_block, arm ir::Instr::Calc: all get_expr_value calls precede all mem_write calls "
-             "(simultaneous assignment of a multi-calc)", floor=1, what="calc arms")
+    """emit_block on a block holding one multi-assignment `Calc { calcs: [(1, A), (2, B)] }` (lib/receval.py): the evaluation of a right-hand side is a
+    scripted event (get_expr_value, or `expr.codegen(self, ..)` when the helper is written out), a store is whatever binds GvnExpr::Mem(var) in the
+    value table / pushes Copy(Mem(var), ..) - wherever that code lives (mem_write, or inlined).  Every evaluation must precede the first store,
+    and each cell must be bound to the value of its own right-hand side."""
+    res.rule("BC-SIMUL", "bc::CodeGen::emit_block, ir::Instr::Calc: every right-hand side of a multi-assignment is evaluated before the first cell is "
+             "stored, and each cell receives the value of its own expression (simultaneous assignment); decided by evaluating the arm with scripted "
+             "expression evaluation and logged stores", floor=1, what="calc arms")
     res.files.add(BC)
+    import receval, itereval
+    from receval import Rec, Variant, MapV, LogList, LogMap
+    from rusteval import Env as _Env, ReturnEx as _Ret, Unanalysable as _Un, Reached as _Re, NONE as _NONE, Res as _Res
     try:
         f = ast.fn(BC, "emit_block")["node"]
-        arm = None
-        for m in walk_t(f["body"], "Match"):
-            for a in m["arms"]:
-                if a["pat"]["t"] == "PStruct" and a["pat"]["path"]["name"].endswith("Instr::Calc"):
-                    arm = a
-        if arm is None:
-            raise Missing("emit_block: arm ir::Instr::Calc")
-        # evaluation of a right-hand side: get_expr_value(..), or its body `expr.codegen(self, ..)` when the helper is written out
-        gets = [m for m in walk_t(arm["body"], "MethodCall") if m["method"] in ("get_expr_value", "codegen")]
-        wrs = [m for m in walk_t(arm["body"], "MethodCall") if m["method"] == "mem_write"]
-        loops = [l for l in walk_t(arm["body"], "ForLoop")]
-        both = [l for l in loops if any(x in list(walk(l)) for x in gets) and any(x in list(walk(l)) for x in wrs)]
-        ok = gets and wrs and max(g["sp"][0] for g in gets) < min(w_["sp"][0] for w_ in wrs) and not both
-        res.check(bool(ok), "BC-SIMUL", f"{BC}|emit_block|Calc", where(BC, arm, "emit_block"),
-                  "a multi-assignment must evaluate every expression before the first store (no loop may contain both get_expr_value and mem_write)")
+        arm = f
+        log = []
+        mk = lambda c: Rec(created=c, first_use=_NONE, last_use=_NONE, num_uses=0)
+
+        class ExprObj:
+            def __init__(self, name):
+                self.name = name
+
+            def __repr__(self):
+                return self.name
+        me = Rec(values=LogMap({}, log, "values"), exprs=[], outer_accessed=[], insts=LogList([], log, "insts"), ranges=[], current_start=0, writes=MapV())
+        vals = {}
+
+        def evaluate(it, expr, var=None):
+            n = len(me["ranges"])
+            me["ranges"].append(mk(len(me["insts"])))
+            me["exprs"].append(itereval.Ctor("GvnExpr::Imm", [n]))
+            vals[expr.name] = n
+            log.append(("eval", expr.name))
+            return n
+
+        class SimInterp(receval.RecInterp):
+            def method(self, recv, name, targs, args, node):
+                if isinstance(recv, ExprObj) and name == "codegen":
+                    return _Res(True, evaluate(self, recv))
+                return super().method(recv, name, targs, args, node)
+        it = SimInterp(ast, BC, me, scripted={"get_expr_value": evaluate})
+        A, B = ExprObj("A"), ExprObj("B")
+        from rusteval import Tup as _Tup
+        calc = Variant("ir::Instr::Calc", {"calcs": [_Tup([1, A]), _Tup([2, B])]})
+        ps = [p["pat"]["name"] for p in f["sig"]["inputs"] if p["t"] == "Arg" and p["pat"]["t"] == "PIdent"]
+        env = _Env()
+        probs = []
+        try:
+            if len(ps) != 3:
+                raise _Un("emit_block(&mut self, block, analysis, fuse): unexpected parameters")
+            for n_, v_ in zip(ps, [Rec(insts=[calc], shift=0), Rec(has_shift=False, writes=[1, 2], sub_anal=[], min_accessed=0, max_accessed=3), True]):
+                env.bind(n_, v_)
+            try:
+                it.exec_block(f["body"], env)
+            except _Ret:
+                pass
+        except (_Un, _Re, KeyError, TypeError, IndexError, AttributeError) as u_:
+            probs.append(f"cannot be analysed (fail closed): {u_}")
+        res.evaluations += 1
+        if not probs:
+            evs = [i for i, e_ in enumerate(log) if e_[0] == "eval"]
+            is_mem = lambda k: isinstance(k, itereval.Ctor) and k.name.endswith("::Mem")
+            binds = [(i, e_[1].fields[0], e_[2]) for i, e_ in enumerate(log) if e_[0] == "values" and is_mem(e_[1])]
+            copies = [(i, e_[1].fields[0].fields[0]) for i, e_ in enumerate(log) if e_[0] == "insts" and isinstance(e_[1], itereval.Ctor) and e_[1].name.endswith("::Copy")
+                      and e_[1].fields and is_mem(e_[1].fields[0])]
+            stores = sorted([i for i, _, _ in binds] + [i for i, _ in copies])
+            if len(evs) != 2:
+                probs.append(f"{len(evs)} right-hand sides are evaluated for a two-cell assignment")
+            elif not stores:
+                probs.append("no cell is stored")
+            elif max(evs) > min(stores):
+                probs.append("a cell is stored before every right-hand side has been evaluated: the later expression reads the new value")
+            else:
+                got = {v_: n_ for _, v_, n_ in binds}
+                want = {1: vals.get("A"), 2: vals.get("B")}
+                if got != want:
+                    probs.append(f"cells are bound to {got}, the right-hand sides evaluated to {want}")
+                if sorted(v_ for _, v_ in copies) != [1, 2]:
+                    probs.append(f"stores are emitted for cells {sorted(v_ for _, v_ in copies)}, expected [1, 2]")
+        res.check(not probs, "BC-SIMUL", f"{BC}|emit_block|Calc", where(BC, arm, "emit_block"),
+                  "a multi-assignment must evaluate every expression before the first store and give each cell its own value: " + "; ".join(probs[:2]))
     except Missing as m:
         res.missing("BC-SIMUL", m)
